@@ -155,10 +155,10 @@ def run(ctx):
     ctx.cov['search']['nesting'] = {'preambles': len(cases), 'language_differs': nn}
 
     # ---- search: every built profile, the reference parser's expansion of @{exec_path} as the oracle -----------
-    cfgs = [lib.Cfg('arch', 3, '3.0'), lib.Cfg('debian', 3, '3.0', full=True)]
+    cfgs = [lib.Cfg('arch', 3, '3.0'), lib.Cfg('debian', 3, '3.0', full=True), lib.Cfg('opensuse', 3, '3.0')]      # opensuse: its own multiarch value
     if ctx.tier == 'thorough':
         cfgs = [lib.Cfg(d, 3, '3.0', 'none', f) for d in lib.DISTS for f in (False, True)]
-    tot = nbad = nexec = ndfa = 0
+    tot = nbad = nexec = ndfa = nsuse = 0
     for cfg in cfgs:
         tree, out, rc = lib.real_build(ctx, cfg)
         if rc != 0:
@@ -198,6 +198,12 @@ def run(ctx):
                 if ctx.known_finding(kid):
                     nbad -= 1
                     continue
+                if cfg.dist == 'opensuse' and not (a - b) and all('-suse-linux' in p for p in (b - a)):
+                    # the shipped multiarch tunable appends *-suse-linux* on opensuse only; the resolver's built-in table has *-linux-gnu* alone
+                    if ctx.known_finding('K_builtinMultiarchSuse'):
+                        nsuse += 1
+                        nbad -= 1
+                        continue
                 if nbad <= 40:
                     ctx.violation('%s: the attachment of %s does not match the same paths as @{exec_path}: lost %s, added %s' % (
                         cfg.name(), x, sorted(b - a)[:3], sorted(a - b)[:3]), {'config': cfg.name(), 'file': x, 'attachment': att, 'exec_path_expanded_by_parser': ep})
@@ -253,6 +259,10 @@ def run(ctx):
                                 continue
                             if e <= want:
                                 got |= e
+                    if got != want and cfg.dist == 'opensuse' and got <= want and all('-suse-linux' in p for p in (want - got)):
+                        if ctx.known_finding('K_builtinMultiarchSuse'):
+                            nsuse += 1
+                            continue
                     if got != want:
                         nbad += 1
                         if nbad <= 5:
@@ -262,7 +272,8 @@ def run(ctx):
         shutil.rmtree(overlay, ignore_errors=True)
     ctx.count_distinct(ops)
     ctx.cov['evaluations'] += tot + nexec
-    ctx.cov['search']['built_attachments'] = {'configs': len(cfgs), 'attachments_compared': tot, 'exec_directive_targets': nexec, 'differing': nbad, 'compared_as_compiled_automata': ndfa}
+    ctx.cov['search']['built_attachments'] = {'configs': len(cfgs), 'attachments_compared': tot, 'exec_directive_targets': nexec, 'differing': nbad, 'compared_as_compiled_automata': ndfa,
+                                             'known_opensuse_multiarch_cases': nsuse}
     ctx.sample({'op': ops[0], 'real_output': go[0][:400]})
     ctx.cov['rule'] = ('every built profile with an @{exec_path} attachment: the literal header attachment vs the expansion of @{exec_path} '
                        'printed by apparmor_parser -D expanded-variables on the same built file (shipped tunables), compared as sets of '
